@@ -88,6 +88,7 @@ class ScriptedClient:
         self.reactor = clock
         self.fam = fam
         self.known = set()
+        self.arm_fail = False
         self.topic_partitions = {"a": [0, 1], "b": [0, 1]}
         self.loads = []        # pending: (sid, topic, Deferred)
         self.produce = None    # pending: (payloads, Deferred)
@@ -103,9 +104,14 @@ class ScriptedClient:
         return d
 
     def send_produce_request(self, payloads, acks=1, timeout=1000, fail_on_error=True, callback=None):
+        self.fam.act(["produce", self.fam.describe(payloads)])
+        if self.arm_fail:
+            # the call fails at once: the Deferred handed back has already failed
+            from afkak.common import LeaderUnavailableError
+            self.arm_fail = False
+            return defer.fail(failure.Failure(LeaderUnavailableError("scripted: failed at once")))
         d = defer.Deferred()
         self.produce = (payloads, d)
-        self.fam.act(["produce", self.fam.describe(payloads)])
         return d
 
     def reset_topic_metadata(self, *topics):
@@ -239,6 +245,8 @@ class ProducerRun:
             return self._timer(("retry",)) is not None
         if a == "Learn":
             return True
+        if a == "ArmFail":
+            return not self.client.arm_fail and not self.stopped
         return False
 
     def _fire_timer(self, dc):
@@ -275,6 +283,8 @@ class ProducerRun:
                 self.producer.stop()
             elif a == "Tick":
                 self._fire_timer(self._timer(("tick",)))
+            elif a == "ArmFail":
+                self.client.arm_fail = True
             elif a == "MetaDone":
                 i = [k for k, l in enumerate(self.client.loads) if l[0] == sid][0]
                 _, topic, d = self.client.loads.pop(i)
@@ -361,6 +371,7 @@ def random_run(cfg, seed, length):
         for i in range(1, n + 1):
             add(3, "MetaRetry", i)
         add(4, "RetryFire")
+        add(0.5, "ArmFail")
         if run.possible({"a": "ProduceDone", "sid": 0}):
             k = len(run.client.produce[0])
             r = rng.random()
